@@ -24,7 +24,7 @@ SPEC = dict(
         ref="DESIGN.md §6 C14, Appendix C"),
     imports="From Ship Require Import Base Timer.\nFrom ShipGen Require Import TimerTable.",
     case_type="c14_case", check_fn="check_c14",
-    drivers=[dict(bin="timerdrv", args=["-prop", "C14"], n_quick=4000, n_thorough=60000, timeout=900)],
+    drivers=[dict(bin="timerdrv", args=["-prop", "C14"], n_quick=3000, n_thorough=60000, timeout=900)],
     codes={10: "stopped_immediately_after_arm_fired", 11: "stopped_timer_fired", 12: "replaced_timer_fired",
            13: "fired_twice", 14: "delivered_without_expiry", 15: "armed_timer_never_fired",
            16: "delivered_twice", 17: "timeout_without_expired_timer",
